@@ -272,6 +272,18 @@ func run() int {
 	ctxOf := map[*vc.Obligation]*vc.FnResult{}
 	for _, r := range results {
 		for _, o := range r.Obls {
+			// clauses tagged for other properties only are checked by those properties' checks
+			if len(o.Props) > 0 && !o.Cover {
+				mine := false
+				for _, p := range o.Props {
+					if p == *prop {
+						mine = true
+					}
+				}
+				if !mine {
+					continue
+				}
+			}
 			all = append(all, o)
 			ctxOf[o] = r
 		}
